@@ -316,6 +316,33 @@ pub(crate) fn evals_inner_product<F: PrimeField + Clone>(
     res
 }
 
+/// Verification hook: the first `n` items of the crate-private `powers(base)` iterator.
+#[cfg(feature = "verif-hooks")]
+pub fn verif_powers<F: Field>(base: F, n: usize) -> Vec<F> {
+    powers(base).take(n).collect()
+}
+
+/// Verification hook: the crate-private `inner_product` (panics on an empty reduction, like it).
+#[cfg(feature = "verif-hooks")]
+pub fn verif_inner_product<
+    F: PrimeField,
+    T: Mul<F, Output = T> + Add<T, Output = T> + Clone,
+>(
+    polys: &[T],
+    scalars: &[F],
+) -> T {
+    inner_product(polys, scalars.iter().copied())
+}
+
+/// Verification hook: the crate-private `evals_inner_product`.
+#[cfg(feature = "verif-hooks")]
+pub fn verif_evals_inner_product<F: PrimeField + Clone>(
+    evals_set: &[Vec<F>],
+    scalars: &[F],
+) -> Vec<F> {
+    evals_inner_product(evals_set, scalars)
+}
+
 /// Multi scalar multiplication engine
 pub trait MSM<C: PrimeCurveAffine>: Clone + Debug + Send + Sized + Sync {
     /// Add arbitrary term (the scalar and the point).
